@@ -238,7 +238,7 @@ func c11Eval(w *mc.W, cas c11Case) {
 }
 
 func runC11(c *mc.Ctx) {
-	c.Rule("blocks of n = 1..65 distinct transactions; all 2^n subsets for n <= 14 (18 thorough) and for larger n the structured family {empty, full, singletons, adjacent pairs, prefixes, suffixes, right edge, alternating}; each (n, subset) through NewMerkleBlockWithTxnSet (two set orderings), NewMerkleBlockWithFilter and bloom.NewMerkleBlock, compared field by field with the reference partial-merkle-tree builder and extracted again; non-trivial = proper non-empty subsets")
+	c.Rule("blocks of n = 1..65 and n in {100,127,128,129,255,256,257,513(,1000,1025,4097)} distinct transactions; all 2^n subsets for n <= 14 (18 thorough) and for larger n the structured family {empty, full, singletons, adjacent pairs, prefixes, suffixes, right edge, alternating}; each (n, subset) through NewMerkleBlockWithTxnSet (two set orderings), NewMerkleBlockWithFilter and bloom.NewMerkleBlock, compared field by field with the reference partial-merkle-tree builder and extracted again; non-trivial = proper non-empty subsets")
 	c.Assume("SHA-256 and wire transaction hashing trusted; the 16384-byte x 10 filter has no false positives on <= 65 items (if one occurs the induced set is used and the event is counted)")
 	full := mc.Pick(c, 14, 18)
 	var cases []c11Case
@@ -279,6 +279,37 @@ func runC11(c *mc.Ctx) {
 		}
 		add(func(i int) bool { return i >= n-2 })
 		add(func(i int) bool { return i == n-1 || i == 0 })
+	}
+	// larger blocks (counter widths, deep right edges): structured subsets only
+	bigNs := []int{100, 127, 128, 129, 255, 256, 257, 513}
+	if c.Thorough() {
+		bigNs = append(bigNs, 1000, 1025, 4097)
+	}
+	for _, n := range bigNs {
+		add := func(f func(i int) bool) {
+			b := make([]byte, n)
+			for i := range b {
+				b[i] = '0'
+				if f(i) {
+					b[i] = '1'
+				}
+			}
+			cases = append(cases, c11Case{N: n, Subset: string(b)})
+		}
+		add(func(i int) bool { return false })
+		add(func(i int) bool { return true })
+		add(func(i int) bool { return i%2 == 0 })
+		add(func(i int) bool { return i == 0 || i == n-1 })
+		for _, k := range []int{0, 1, 31, 32, 63, 64, 65, n / 2, n - 3, n - 2, n - 1} {
+			if k < 0 || k >= n {
+				continue
+			}
+			k := k
+			add(func(i int) bool { return i == k })
+			add(func(i int) bool { return i >= k })
+			add(func(i int) bool { return i <= k })
+			add(func(i int) bool { return i == k || i == n-1 })
+		}
 	}
 	c.Space("(n, subset) pairs", int64(len(cases)))
 	c.ParFor(int64(len(cases)), func(w *mc.W, i int64) {
